@@ -60,29 +60,46 @@ def r2_positions(chk: Check):
     loc = chk.loc(f.module, f.node)
     recs = [c for c in fn_calls(f.node) if isinstance(c.func, ast.Name) and c.func.id == "self" and len(c.args) == 1]
     chk.min_instances(len(recs), 6, "recursive descents of the configuration walk")
-    want = {"v": ("self.map(arg.name)", "argument name"), "sv": ("self.list(i)", "list index"), "value": ("self.map(key)", "dict key"),
-            "info.pre_tasks": ("self.map('__pre_tasks__')", "reserved key"), "info.init_tasks": ("self.map('__init_tasks__')", "reserved key")}
+    g = CFG(f.node)
+    rd = ReachingDefs(g)
+    kinds = set()
     for c in recs:
-        a = src(c.args[0])
+        arg = c.args[0]
         w = None
+        loop = None
         for anc in _anc(c):
-            if isinstance(anc, ast.With):
+            if isinstance(anc, ast.With) and w is None:
                 w = src(anc.items[0].context_expr)
-                break
+            if isinstance(anc, ast.For) and loop is None:
+                loop = anc
             if isinstance(anc, (ast.FunctionDef, ast.AsyncFunctionDef)):
                 break
-        if a == "x.__xpm__.task":
+        nodes = g.nodes_of(c)
+        canon = rd.canon(arg, nodes[0]) if nodes else src(arg)
+        if canon.endswith(".__xpm__.task") or canon.endswith(".task"):
             chk.ok(chk.fkey(f, "descent into the producing task"), chk.loc(f.module, c), "frozen exception: the producing task is already sealed, the sealer stops there")
             continue
-        if a not in want:
-            chk.violation(chk.fkey(f, f"descent into {a}"), f"unknown descent `{src(c)}` in the configuration walk (position discipline not established)", chk.loc(f.module, c))
+        expected, what = None, None
+        if isinstance(arg, ast.Name) and loop is not None and isinstance(loop.target, ast.Tuple) and len(loop.target.elts) == 2 and src(loop.target.elts[1]) == arg.id:
+            first = src(loop.target.elts[0])
+            it = src(loop.iter)
+            if it.endswith(".xpmvalues()"):
+                expected, what = f"self.map({first}.name)", "argument name"
+            elif it.startswith("enumerate("):
+                expected, what = f"self.list({first})", "list index"
+            elif it.endswith(".items()"):
+                expected, what = f"self.map({first})", "dict key"
+        elif canon.endswith(".pre_tasks"):
+            expected, what = "self.map('__pre_tasks__')", "reserved key __pre_tasks__"
+        elif canon.endswith(".init_tasks"):
+            expected, what = "self.map('__init_tasks__')", "reserved key __init_tasks__"
+        if expected is None:
+            chk.violation(chk.fkey(f, f"descent into {canon[:40]}"), f"unknown descent `{src(c)}` in the configuration walk (position discipline not established)", chk.loc(f.module, c))
             continue
-        chk.require(w == want[a][0], chk.fkey(f, f"descent into {a} under its {want[a][1]}"),
-                    f"the walk descends into `{a}` under `{w}`; it must push `{want[a][0]}` so that two different sub-configurations never share a position (and hence a generated path)", chk.loc(f.module, c))
-    # sibling uniqueness of the keys: argument names come from xpmvalues() (distinct names), enumerate index, dict key
-    t = src(f.node)
-    chk.require("for arg, v in info.xpmvalues()" in t and "for i, sv in enumerate(x)" in t and "for key, value in x.items()" in t, chk.fkey(f, "sibling keys"),
-                "siblings must be keyed by argument name / enumerate index / dict key", loc)
+        kinds.add(what)
+        chk.require(w == expected, chk.fkey(f, f"descent under its {what}"),
+                    f"the walk descends into `{src(arg)}` under `{w}`; it must push `{expected}` so that two different sub-configurations never share a position (and hence a generated path)", chk.loc(f.module, c))
+    chk.require({"argument name", "list index", "dict key"} <= kinds, chk.fkey(f, "sibling keys"), f"siblings must be keyed by argument name / enumerate index / dict key (found {sorted(kinds)})", loc)
     ls = tree.func("core.objects", "ConfigWalk.list")
     mp = tree.func("core.objects", "ConfigWalk.map")
     chk.require([src(x.value) for x in body_walk(ls.node) if isinstance(x, ast.Return)] == ["self.context.push(str(i))"], chk.fkey(ls, "list position"), "ConfigWalk.list must push str(index)", chk.loc(ls.module, ls.node))
